@@ -131,6 +131,13 @@ static void graph_target(Tape& t, Ctx& c)
     Graph ga = make_graph(A, 0), gb = make_graph(B, 0);
     CompositeAdjactor<Graph, Graph> ca(ga, gb);
     VF_CHECK(ca.get_num_nodes_domain() == Index(A.nd) && ca.get_num_nodes_image() == Index(B.ni), "CompositeAdjactor dims");
+    // walk the composite iterators with a step bound first: a runaway iterator must fail quickly instead of hanging the render
+    for(int i = 0; i < A.nd; ++i)
+    {
+      std::vector<Index> got; size_t lim = rel[(size_t)i].size();
+      for(auto it = ca.image_begin(Index(i)); it != ca.image_end(Index(i)); ++it) { VF_CHECK(got.size() < lim, "CompositeAdjactor iterator of node " << i << " yields more than the " << lim << " composed indices"); got.push_back(*it); }
+      VF_CHECK(got == rel[(size_t)i], "CompositeAdjactor iteration of node " << i << " got " << show(got) << " expected " << show(rel[(size_t)i]));
+    }
     Graph r(RenderType(rt), ca);
     check_render(rt, rel, A.nd, B.ni, read_graph(r, "render(composite adjactor)"), r.get_num_nodes_domain(), r.get_num_nodes_image(), "render(composite adjactor)");
     return;
@@ -440,7 +447,7 @@ static void coloring_target(Tape& t, Ctx& c)
 // =============================================================================================
 // target "cmk"
 // =============================================================================================
-struct CmkSim { bool maxdeg_stuck = false; bool wide_then_more = false; int ncomp = 0; };
+struct CmkSim { bool maxdeg_stuck = false; bool mindeg_stuck = false; bool wide_then_more = false; int ncomp = 0; };
 /// reference run of the level structure (independent of the sort type): which known-finding classes does the input hit?
 static CmkSim cmk_sim(const Lists& a, int rtype)
 {
@@ -449,7 +456,7 @@ static CmkSim cmk_sim(const Lists& a, int rtype)
   {
     size_t root = n;
     if(rtype == 0) { for(size_t j = 0; j < n; ++j) if(!vis[j]) { root = j; break; } }
-    else if(rtype == 1) { size_t best = n + 1; for(size_t j = 0; j < n; ++j) if(!vis[j] && a[j].size() < best) { best = a[j].size(); root = j; } }
+    else if(rtype == 1) { size_t best = 0; bool any = false; for(size_t j = 0; j < n; ++j) if(!vis[j] && (!any || a[j].size() < best)) { best = a[j].size(); root = j; any = true; } if(best >= n + 1) s.mindeg_stuck = true; }
     else { size_t best = 0; bool any = false; for(size_t j = 0; j < n; ++j) if(!vis[j] && (!any || a[j].size() > best)) { best = a[j].size(); root = j; any = true; } if(best == 0) s.maxdeg_stuck = true; }
     ++s.ncomp; std::vector<size_t> lvl(1, root); vis[root] = 1; ++done; size_t last = 1;
     while(!lvl.empty()) { std::vector<size_t> nx; for(size_t u : lvl) for(Index v : a[u]) if(!vis[(size_t)v]) { vis[(size_t)v] = 1; nx.push_back((size_t)v); ++done; } if(!nx.empty()) last = nx.size(); lvl.swap(nx); }
@@ -471,9 +478,12 @@ static void cmk_target(Tape& t, Ctx& c)
   // exclusion c19-cmk-maxdeg-isolated: RootType::maximum_degree finds no root when every remaining node has degree 0
   // (known finding): give the degree-0 nodes a self-loop (they stay isolated, degree becomes 1).
   if(sim.maxdeg_stuck && c.excl("c19-cmk-maxdeg-isolated")) { for(size_t i = 0; i < n; ++i) if(A.a[i].empty()) A.a[i].push_back(Index(i)); A.cls += "+steered-selfloops"; sim = cmk_sim(A.a, rtype); }
+  // exclusion c19-cmk-mindeg-multigraph: RootType::minimum_degree finds no root when every remaining node has degree >= n+1
+  // (only possible with repeated adjacencies; known finding): remove the repetitions.
+  if(sim.mindeg_stuck && c.excl("c19-cmk-mindeg-multigraph")) { A.a = m_injectify(A.a); A.cls += "+steered-injective"; sim = cmk_sim(A.a, rtype); }
   // exclusion c19-cmk-wide-last-level: a component whose last BFS level has >= 2 nodes followed by another component
   // derails the position counter (known finding): chain all nodes so that one root reaches everything.
-  if(sim.wide_then_more && c.excl("c19-cmk-wide-last-level")) { for(size_t i = 0; i + 1 < n; ++i) { A.a[i].push_back(Index(i + 1)); A.a[i + 1].push_back(Index(i)); } A.cls += "+steered-chained"; sim = cmk_sim(A.a, rtype); }
+  if(sim.wide_then_more && c.excl("c19-cmk-wide-last-level")) { for(size_t i = 0; i + 1 < n; ++i) { if(std::find(A.a[i].begin(), A.a[i].end(), Index(i + 1)) == A.a[i].end()) A.a[i].push_back(Index(i + 1)); if(std::find(A.a[i + 1].begin(), A.a[i + 1].end(), Index(i)) == A.a[i + 1].end()) A.a[i + 1].push_back(Index(i)); } A.cls += "+steered-chained"; sim = cmk_sim(A.a, rtype); }
   c.op = std::string("cmk:") + rn[rtype];
   c.desc.set("root", rn[rtype]); c.desc.set("sort", sn[stype]); c.desc.set("reverse", reverse); c.desc.set("ctor", how); c.desc.set("A", A.json());
   c.label(std::string("root:") + rn[rtype]); c.label(std::string("sort:") + sn[stype]); c.label(reverse ? "reverse:yes" : "reverse:no");
@@ -482,7 +492,7 @@ static void cmk_target(Tape& t, Ctx& c)
   c.label(sim.ncomp > 1 ? "cmk-components:>1" : "cmk-components:1");
   bool sym = is_symmetric(A.a); c.label(sym ? "symmetric" : "asymmetric");
   bool iso = false; for(auto& r : A.a) if(r.empty()) iso = true; if(iso) c.label("feature:isolated-nodes"); if(A.has_dups()) c.label("feature:duplicates");
-  if(sim.maxdeg_stuck) c.label("class:maxdeg-root-among-degree-0"); if(sim.wide_then_more) c.label("class:wide-last-level-then-more");
+  if(sim.maxdeg_stuck) c.label("class:maxdeg-root-among-degree-0"); if(sim.mindeg_stuck) c.label("class:mindeg-root-among-degree>n"); if(sim.wide_then_more) c.label("class:wide-last-level-then-more");
   c.nontrivial = n >= 2 && A.nidx() >= 1;
   c.announce();
 
